@@ -541,7 +541,73 @@ func fineEmptyWakesConsumer(seed uint64) []lib.Case {
 	return []lib.Case{cr.finish("empty-vs-wakeup#"+strconv.FormatUint(seed, 10), seed, nil, nil)}
 }
 
+// Empty vs a timeout scan / a REQ that has popped a message from the in-flight set and not
+// yet put it back on the queue: the empty finds it in neither place, the put then re-adds
+// it, so a message that was in flight when the channel was emptied survives the empty.
+func fineEmptyVsRequeue(seed uint64, viaReq bool) []lib.Case {
+	cr := newFineCase(seed, 10)
+	name, point := "scan-vs-empty", "scan-inflight:after-pop"
+	if viaReq {
+		name, point = "req-vs-empty", "req:after-pop"
+	}
+	cr.opCreateTopic(1)
+	cr.opCreateChan(1, 1)
+	k1 := cr.opConnect(false, false)
+	cr.opSub(k1, 1, 1)
+	cr.opRdy(k1, 1)
+	cr.opPub(1, 1, false, false)
+	tg, id, okh := cr.someHeld(k1)
+	if !okh {
+		return []lib.Case{cr.finish(name+"-setup-failed#"+strconv.FormatUint(seed, 10), seed, nil, nil)}
+	}
+	cr.opRdy(k1, 0)
+	reached, release := nsqd.VerifArmPark(point, 1)
+	at := time.Now().Add(2 * time.Hour).UnixNano()
+	now := cr.now()
+	moved := make(chan struct{})
+	if viaReq {
+		k1.c.write([]byte("REQ " + id + " 0\n"))
+		close(moved)
+	} else {
+		go func() { cr.d.VerifScan(tname(1), cname(1), at, true); close(moved) }()
+	}
+	ok := waitReached(reached, 3*time.Second)
+	cr.tag(fmt.Sprintf("requeue-parked=%v", ok))
+	// linearisation recorded: the re-queue (its pop came first), then the empty
+	if viaReq {
+		cr.ev(fmt.Sprintf("EOp (OReq %d %d 0%%Z %s) ROk", k1.k, tg, z(now)))
+	} else {
+		cr.ev(fmt.Sprintf("EOp (OScanInFlight 1 1 %s) ROk", z(at)))
+		cr.ev(fmt.Sprintf("EExpired 1 1 true [%d]%%N", tg))
+	}
+	delete(k1.held, tg)
+	// the empty waits for the requeue in progress (it takes the channel's exit lock)
+	done := make(chan int, 1)
+	go func() { done <- cr.post("/channel/empty", url.Values{"topic": {tname(1)}, "channel": {cname(1)}}, nil) }()
+	time.Sleep(150 * time.Millisecond)
+	release()
+	<-moved
+	code := <-done
+	cr.ev(fmt.Sprintf("EOp (OEmptyChan 1 1) %s", httpResp(code)))
+	cr.tag("empty-channel")
+	cr.nontriv = true
+	cr.after()
+	cr.opRdy(k1, 1) // whatever survived the empty would be delivered now
+	cr.opPub(1, 1, false, false)
+	hidden := []int(nil)
+	ignore := []int(nil)
+	if viaReq {
+		// the REQ handler updates its consumer's counter after the channel-side requeue,
+		// outside every lock: whether that lands before or after the empty's reset is
+		// the K1 family (known); this scenario is judged beyond that counter
+		hidden, ignore = []int{k1.k}, []int{13, 3}
+	}
+	return []lib.Case{cr.finish(name+"#"+strconv.FormatUint(seed, 10), seed, hidden, ignore)}
+}
+
 var fineScenarios = map[string]func(uint64) []lib.Case{
+	"scan-vs-empty":         func(seed uint64) []lib.Case { return fineEmptyVsRequeue(seed, false) },
+	"req-vs-empty":          func(seed uint64) []lib.Case { return fineEmptyVsRequeue(seed, true) },
 	"empty-vs-wakeup":       fineEmptyWakesConsumer,
 	"pause-vs-pump":         finePauseWhilePumpBusy,
 	"touch-then-scan":       fineTouchThenScan,
@@ -559,7 +625,7 @@ var fineScenarios = map[string]func(uint64) []lib.Case{
 // which forced interleavings each property's profile runs
 var fineByProfile = map[string][]string{
 	"c01": {"pump-vs-sub", "deliver-vs-disconnect"},
-	"c08": {"deliver-vs-empty", "sub-vs-topic-delete", "fin-vs-empty", "empty-vs-wakeup"},
+	"c08": {"deliver-vs-empty", "sub-vs-topic-delete", "fin-vs-empty", "empty-vs-wakeup", "scan-vs-empty", "req-vs-empty"},
 	"c03": {"fin-vs-empty", "deliver-vs-empty", "pause-vs-pump"},
 	"c13": {"fin-vs-empty", "deliver-vs-empty"},
 	"c02": {"deliver-vs-disconnect", "touch-then-scan"},
